@@ -44,10 +44,10 @@ Spec == Init /\ [][Next]_vars
 \* Projection: erasing the events of documented tokens leaves the other characters unchanged and in order
 IsPlain(sym) == sym \in {"x", "A", "B", "M", "p", "1", "sp", ".", "G", "E", "=", ">", "<"}
 PlainCharsOf(s) == LET F[j \in 0..Len(s)] == IF j = 0 THEN <<>> ELSE F[j - 1] \o (IF IsPlain(s[j]) THEN Piece(s[j]) ELSE <<>>) IN F[Len(s)]
-OffIsIdentity == (phase = "done" /\ ~conv /\ \A j \in 1..Len(inp) : inp[j] \notin {"bs", "nl", "T", "F", "K"}) =>
+OffIsIdentity == (phase = "done" /\ ~conv /\ \A j \in 1..Len(inp) : inp[j] \notin {"bs", "nl", "T", "F", "K", "H"}) =>
                     exp = Chars(LET F[j \in 0..Len(inp)] == IF j = 0 THEN <<>> ELSE F[j - 1] \o Piece(inp[j]) IN F[Len(inp)])
 ScanProgress == [][phase = "scan" /\ phase' = "scan" => pos' > pos]_vars
 OnlyDocumentedControls == phase = "done" /\ conv =>
-   \A j \in 1..Len(exp) : exp[j].t = "k" => (exp[j].v \in {"super", "sub", "line", "chpgn", "totalpage", "field:NUMPAGES"} \/ \E q \in 1..Len(inp) : inp[q] = "bs")
+   \A j \in 1..Len(exp) : exp[j].t = "k" => (exp[j].v \in {"super", "sub", "line", "chpgn", "totalpage", "field:NUMPAGES"} \/ \E q \in 1..Len(inp) : inp[q] \in {"bs", "K", "T", "F"})
 Emit == phase = "done" => PrintT(ToJson([inp |-> inp, conv |-> conv, exp |-> exp]))
 =============================================================================
